@@ -146,6 +146,11 @@ def run(ctx):
             pts[:, 1] = np.round(pts[:, 1]) * rng.choice([1.0, 64.0, 4096.0])      # steep integer heights over timestamp-like x
             vt += '-steep'
         chain(ctx, pts, fam + vt)
+        if rng.random() < 0.05:
+            # needle curve: consecutive directions differ by cross products of +-1..3 between vectors of length ~2^30..2^40
+            M_ = float(2 ** rng.choice([27, 30, 34, 40]) * rng.choice([1, -1]))
+            xs = np.cumsum([rng.choice([1, 1, 2]) for _ in range(rng.randrange(3, 12))]).astype(float)
+            chain(ctx, np.column_stack([xs, xs * M_ + np.array([rng.choice([-1.0, 0.0, 0.0, 1.0, 2.0]) for _ in xs])]), 'needle-curve')
     for _ in range(400 if quick else 8000):
         k = rng.randrange(3, 10)
         lim = rng.choice([2, 3, 5, 50])
@@ -177,9 +182,27 @@ def run(ctx):
             L = [(dx_ * m_, dy_ * m_) for m_ in rng.sample(range(-6, 7), rng.randrange(3, 9))]
             rng.shuffle(L)
             lim = 'collinear-all'
+        if rng.random() < 0.08:
+            # NEEDLE: directions from the pivot that differ by far less than float resolution of an angle (cross products of +-1..3 between
+            # vectors of length ~2^27..2^40) - the orientation test is exact on these integers, any angle / slope / normalised surrogate is not
+            M_ = 2 ** rng.choice([27, 30, 34, 40]) + rng.choice([0, 1, 3])
+            S = {(0, 0)}
+            for k_ in rng.sample(range(1, 7), rng.randrange(2, 6)):
+                S.add((k_, k_ * M_ + rng.choice([-1, 0, 0, 1, 2])))
+            if rng.random() < 0.6:
+                S.add((rng.randrange(3, 9), 0))
+            if rng.random() < 0.4:
+                S.add((rng.randrange(1, 5), rng.randrange(1, 50)))
+            L = [(b_, a_) for a_, b_ in S] if rng.random() < 0.3 else list(S)
+            rng.shuffle(L)
+            if len(L) < 3:
+                continue
+            lim = 'needle'
         P_ = np.array(L, float)
         u = rng.random()
         tag = ''
+        if lim == 'needle':
+            u = 1.0                       # no further offset: the coordinates are at the edge of exact representability already
         if u < 0.1:
             P_, tag = P_ + 2.0 ** 30, '@off30'
         elif u < 0.2:
